@@ -5,6 +5,7 @@ the output of tools/benign_eval.py.   python3 tools/import_benign.py /tmp/benign
 import glob, os, re, shutil, sys
 VERIF = os.path.dirname(os.path.dirname(os.path.abspath(__file__)))
 root, evalfile = sys.argv[1], sys.argv[2]
+tag = sys.argv[3] if len(sys.argv) > 3 else ""   # e.g. "b" for the second round: C01-b1
 dst_root = os.path.join(VERIF, "benign")
 os.makedirs(dst_root, exist_ok=True)
 n = 0
@@ -12,7 +13,7 @@ for src in sorted(glob.glob(os.path.join(root, "C??", "[0-9]"))):
     prop, k = src.split("/")[-2:]
     if not os.path.exists(os.path.join(src, "patch.diff")):
         continue
-    dst = os.path.join(dst_root, f"{prop}-{k}")
+    dst = os.path.join(dst_root, f"{prop}-{tag}{k}")
     os.makedirs(dst, exist_ok=True)
     for f in ("patch.diff", "notes.md", "equiv.py"):
         if os.path.exists(os.path.join(src, f)):
@@ -26,13 +27,24 @@ cur = None
 for line in open(evalfile):
     m = re.match(r"^(C\d\d)/(\d)\b", line)
     if m:
-        cur = f"{m.group(1)}-{m.group(2)}"
+        cur = f"{m.group(1)}-{tag}{m.group(2)}"
         continue
     m = re.match(r"^\s+(C\d\d) (ALARM|UNDECIDED) (.*)$", line)
     if m and cur:
         lines.append(f"{cur} {m.group(1)}   # {m.group(2)}: {m.group(3).strip()[:150]}")
-with open(os.path.join(dst_root, "RESIDUAL_FALSE_ALARMS.txt"), "w") as fh:
+path = os.path.join(dst_root, "RESIDUAL_FALSE_ALARMS.txt")
+old = []
+if os.path.exists(path):
+    # keep the entries of the other round(s)
+    for line in open(path):
+        if line.startswith("#") or not line.strip():
+            continue
+        name = line.split()[0]
+        is_tagged = bool(re.match(r"C\d\d-[a-z]\d", name))
+        if (tag and not name.split("-")[1].startswith(tag)) or (not tag and is_tagged):
+            old.append(line.rstrip("\n"))
+with open(path, "w") as fh:
     fh.write("# <change> <property>   # what the check wrongly reports on this behaviour-preserving change\n")
     fh.write("# (written by tools/import_benign.py from tools/benign_eval.py; these pairs are not replayed by the self-test)\n")
-    fh.write("\n".join(lines) + "\n")
+    fh.write("\n".join(sorted(old + lines)) + "\n")
 print(n, "changes imported;", len(lines), "residual (change, property) false alarms")
